@@ -17,6 +17,7 @@ RULE = ('token strings: (a) every string over the %d-token alphabet up to length
         'least one of implementation and reference accepts it (a tree was compared); distinct = distinct rendered text.'
         % (len(gram.ALPHA), len(gram.ALPHA_SMALL)))
 RULE += ' One grammar-derived case in eight is preceded by an arbitrary earlier call on the long-lived parser (failed parses, abandoned/suspended list_names, failing evals, names=None evals); one in five goes through a caching parser together with two sibling texts that differ only inside their string literals (with # in them).'
+RULE += ' String literals include ones spelled like keyword constants and numbers ("True", \'None\', "12") and ones holding the characters str.splitlines() breaks at (FF, VT, FS, NEL, U+2028, U+2029).'
 ASSUMPTIONS = [
     'R1 (lib/refparser.py) is the reading of "the published grammar and operator table": declared levels/associativity, '
     'yacc shift/reduce rule, greedy lambda bodies and conditional branches, the 8 slice forms, index-only assignment targets',
